@@ -12,8 +12,6 @@ Reading guide
 * `specItems i`      : the XDM nodes of the call in document order `(idx, kind, name, parent idx, string value)`
 * `place s it`       : the item `it` put at position `s + it.idx` (parent at `s + parent idx`)
 * `inputWF i`        : every namespace map read by the builder has unique keys (it is a Python dict)
-* `inK i`            : trigger of known finding F02a (`lateTail`): some descendant element of the top element
-                       has a non-empty tail *and* a non-empty string below it
 * `blankIf true r`   : `r` with the string value erased if `r` is a document or element node
 -/
 import EPV.Lemmas.BuilderMain
@@ -100,11 +98,11 @@ theorem elements_registry (c : Cfg) (par : Option Nat) (p : Nat) (e : XTree) (he
 /-- FAITHFUL IMAGE.  For every well-formed input on which the builder succeeds, the spec denotes a
 tree too, and `root.iter()` is exactly the XDM node list of the spec — same kinds, names, parents,
 string values of attribute/namespace/text/comment/PI nodes, in document order — with node number `k`
-sitting at position `root.pos + k`.  (String values of documents/elements: next section.) -/
+sitting at position `root.pos + k`.  (Including the string values of documents/elements: `iter_eq_spec_full`.) -/
 theorem iter_eq_spec (i : Input) (root : PNode) (h : build i = .ok root) (hwf : inputWF i = true) :
     ∃ items, specItems i = some items ∧
       (iter root).map (blankIf true) = (items.map (place root.pos)).map (blankIf true) :=
-  iter_eq_spec_aux true i root h hwf (by intro hb; cases hb)
+  iter_eq_spec_aux true i root h hwf
 
 /-- `build_count`: exactly one node per element, attribute, in-scope namespace, comment, PI, document
 and non-`None` text/tail chunk — as many nodes as the XDM tree has. -/
@@ -137,7 +135,7 @@ theorem gap_exact (i : Input) (root : PNode) (h : build i = .ok root) (hwf : inp
 positions later (the next sibling / tail text gets `p + size`). -/
 theorem gap_exact_subtree (c : Cfg) (t : XTree) (p : Nat) (hwf : treeWF c t = true) :
     (buildOne c p t).2 = p + (itemsOne c none 0 t).length := by
-  have := (buildOne_spec c true p t p 0 none rfl hwf (by intro hb; cases hb)).2
+  have := (buildOne_spec c true p t p 0 none rfl hwf).2
   exact this
 
 theorem blankIf_fields (b : Bool) (r : Rec) :
@@ -190,44 +188,32 @@ theorem gap_exact_needs_wf :
 
 /-! ## string values -/
 
-/-- PARTIAL (known finding F02a).  `string_value_concat`: the string value the implementation computes
-for an element equals the XDM string value (concatenation of the text-node descendants in document
-order) — provided the element is outside the F02a region.  The full statement
-`∀ t, elemStringValue t = stringValue t` is false: `string_value_concat_fails`. -/
-theorem string_value_concat_partial (t : XTree) (hk : lateTail t = false) :
-    elemStringValue t = stringValue t :=
-  elemStringValue_eq t hk
+/-- `string_value_concat` (full strength since fix F02a): for EVERY element the string value the
+implementation computes — the document-order walk of `etree_iter_strings` — is the XDM string value,
+the concatenation of the string values of its text-node descendants in document order. -/
+theorem string_value_concat (t : XTree) : elemStringValue t = stringValue t :=
+  elemStringValue_eq t
 
-/-- F02a witness: `<a><b>1<c>2</c></b>3</a>` — the implementation yields `b`'s tail before `c`'s text. -/
-theorem string_value_concat_fails :
+/-- stronger, on the chunk lists: the walk yields exactly the text chunks of the spec, in order -/
+theorem string_value_chunks_eq (t : XTree) : chunksOne true t = textsOne t :=
+  chunksOne_top t
+
+/-- regression witness of the former finding F02a (`<a><b>1<c>2</c></b>3</a>`: the old walk gave `132`)
+and the coordinator's witness `<r><a>1<b>2</b>3</a>T<c/>U</r>` (old: `1T23U`): now document order. -/
+theorem string_value_order_examples :
     let t : XTree := .elem "a" [] [] none [.elem "b" [] [] (some "1") [.elem "c" [] [] (some "2") [] none] (some "3")] none
-    lateTail t = true ∧ (elemStringValue t).toList = ['1', '3', '2'] ∧ (stringValue t).toList = ['1', '2', '3'] := by
+    let r : XTree := .elem "r" [] [] none
+      [.elem "a" [] [] (some "1") [.elem "b" [] [] (some "2") [] (some "3")] (some "T"),
+       .elem "c" [] [] none [] (some "U")] none
+    (elemStringValue t).toList = ['1', '2', '3'] ∧ (elemStringValue r).toList = ['1', '2', '3', 'T', 'U'] := by
   decide
 
-/-- the hypothesis of the partial theorem is satisfiable on a non-trivial tree (mixed content, comment
-with a tail, nested elements whose tails are empty or whose content is empty) -/
-example :
-    let t : XTree := .elem "a" [] [] (some "x")
-      [.comment "c" (some "y"), .elem "b" [] [] (some "z") [.elem "c" [] [] none [] (some "v")] none,
-       .elem "b" [] [] none [] (some "w")] none
-    lateTail t = false ∧ (stringValue t).toList = ['x', 'y', 'z', 'v', 'w'] := by decide
-
-/-- always (inside the F02a region too): the implementation concatenates exactly the text chunks of the
-XDM string value, each once — only their order can differ. -/
-theorem string_value_chunks_perm (t : XTree) : (chunksOne true t).Perm (textsOne t) := by
-  cases t with
-  | elem name nsmap attrib text kids tail =>
-    simp only [chunksOne, textsOne, if_true, List.append_nil]
-    exact List.Perm.append_left _ (chunksKids_perm kids)
-  | comment s tl => simp [chunksOne, textsOne]
-  | pi t s tl => simp [chunksOne, textsOne]
-
-/-- PARTIAL (F02a).  The complete faithful image, string values of documents and elements included
-(a document's string value is that of its top element: comments and PIs do not contribute). -/
-theorem iter_eq_spec_full_partial (i : Input) (root : PNode) (h : build i = .ok root)
-    (hwf : inputWF i = true) (hk : inK i = false) :
+/-- The complete faithful image, string values of documents and elements included (a document's string
+value is that of its top element: comments and PIs do not contribute): `root.iter()` IS the XDM node
+list of the spec placed at consecutive positions. -/
+theorem iter_eq_spec_full (i : Input) (root : PNode) (h : build i = .ok root) (hwf : inputWF i = true) :
     ∃ items, specItems i = some items ∧ iter root = items.map (place root.pos) := by
-  obtain ⟨items, hs, he⟩ := iter_eq_spec_aux false i root h hwf (fun _ => hk)
+  obtain ⟨items, hs, he⟩ := iter_eq_spec_aux false i root h hwf
   refine ⟨items, hs, ?_⟩
   have hid : ∀ l : List Rec, l.map (blankIf false) = l := by
     intro l; induction l with
